@@ -349,7 +349,7 @@ func genBase(r *vgen.Rand) *scenario {
 	return sc
 }
 
-const numMutations = 39
+const numMutations = 40
 
 func otherClassIndex(r *vgen.Rand, p TRC, notKind int) (int64, bool) {
 	var idx []int
@@ -668,6 +668,37 @@ func mutate(r *vgen.Rand, sc *scenario, k int) string {
 			sc.sis[i] = sc.sis[j]
 		}
 		return "signature-replaced-by-copy-of-another"
+	case 39:
+		// a second certificate for the distinguished name of a voter / root, encoded with the
+		// other ASN.1 string type (same name, other bytes). In a regular update it takes the
+		// place of ANOTHER certificate of the class: one is removed, a second key for the same
+		// name is added - and the original of the copy votes and the copy signs.
+		kind := vgen.Pick(r, 2, 2, 3, 1)
+		k := idxOf(*s, kind)
+		if len(k) == 0 {
+			return "same-name-other-encoding-noop"
+		}
+		i := k[r.Intn(len(k))]
+		orig := s.Certs[i]
+		dup := trcgen.OtherEncoding(orig)
+		if len(k) >= 2 && r.Chance(3, 4) {
+			j := k[(indexIn(k, i)+1+r.Intn(len(k)-1))%len(k)]
+			s.Certs[j] = dup
+		} else {
+			s.Certs = append(s.Certs, dup)
+		}
+		if kind != 3 {
+			sc.sis = append(sc.sis, signerFor(dup))
+		}
+		if p != nil && kind == 2 && voteKind(sc) == 2 {
+			for x, q := range p.Certs {
+				if same(q, orig) && !contains64(s.Votes, int64(x)) {
+					s.Votes = append(s.Votes, int64(x))
+					sc.sis = append(sc.sis, signerFor(q))
+				}
+			}
+		}
+		return fmt.Sprintf("same-name-other-encoding-class-%d", kind)
 	}
 	return "?"
 }
@@ -797,9 +828,10 @@ func main() {
 	run.ShardSize = 60
 	run.Rule = "updates: a valid predecessor (base or update, 1-3 sensitive, 1-3 regular, 1-2 root certificates) and a " +
 		"well-formed completely signed regular or sensitive successor (re-keyed / added / removed certificates, changed " +
-		"quorum and AS lists, reordered certificates), then 0-2 of 39 mutations (ISD/base/serial/noTrustReset, votes: too few, " +
+		"quorum and AS lists, reordered certificates), then 0-2 of 40 mutations (ISD/base/serial/noTrustReset, votes: too few, " +
 		"duplicated, wrong class, out of range, none; signer infos: dropped, corrupted, other key, other payload, unsupported " +
-		"version, by key id, doubled, replaced by a copy of another, unrelated; every rule of a regular update; no predecessor; invalid payload; invalid " +
+		"version, by key id, doubled, replaced by a copy of another, unrelated; a same-name certificate with a differently DER-encoded subject " +
+		"taking another certificate's place; every rule of a regular update; no predecessor; invalid payload; invalid " +
 		"predecessor); base TRCs signed by all voters with signature mutations; real DER TRCs and CMS SignedData are " +
 		"encoded and decoded before SignedTRC.Verify; verdict, rejecting stage, error class and the Update " +
 		"(type, new voters, votes, root acknowledgements) compared; non-trivial = every case"
@@ -830,7 +862,7 @@ func main() {
 				k = i % numMutations // every mutation alone at least twice per run
 			}
 			if isBase {
-				k = vgen.Pick(r, 11, 12, 13, 14, 15, 16, 17, 18, 19, 20, 21, 34, 6, 9)
+				k = vgen.Pick(r, 11, 12, 13, 14, 15, 16, 17, 18, 19, 20, 21, 34, 6, 9, 39, 39)
 				if j == 0 && r.Chance(1, 8) {
 					// a predecessor handed in for a base TRC
 					p := trcgen.GenTRC(r, sc.succ.ISD, true, trcgen.RandShape(r), 0)
@@ -922,6 +954,24 @@ func probeMalformedSID(f *trcgen.Factory) string {
 		return "SignedTRC.Verify panics: " + msg
 	}
 	return fmt.Sprint("rejected: ", verr)
+}
+
+func indexIn(xs []int, x int) int {
+	for i, y := range xs {
+		if y == x {
+			return i
+		}
+	}
+	return 0
+}
+
+func contains64(xs []int64, x int64) bool {
+	for _, y := range xs {
+		if x == y {
+			return true
+		}
+	}
+	return false
 }
 
 func contains2(xs []string, x string) bool {
